@@ -62,6 +62,12 @@ def generate(rng, tier):
             c["xmin"] = None
             c["xmax"] = None if (i // 10) % 2 else c["xin"][-1]
             c["desc"]["window"] = "no_lower_limit_negative_abscissae"
+        if i % 10 == 7 and len(c["xin"]) >= 4 and c["xmin"] is None and not c["omitted"] and not (i % 6 == 5) and sorted(c["xin"]) == c["xin"]:
+            # a dead bin (NaN abscissa, not the first one) and no lower limit (or no window at all): the full range of the other points
+            c["xin"] = list(c["xin"])
+            c["xin"][len(c["xin"]) // 2] = float("nan")
+            c["int_dtype"] = [False, c["int_dtype"][1], c["int_dtype"][2]]
+            c["desc"]["grid"] = str(c["desc"]["grid"]) + "+nan_abscissa_no_lower_limit"
         if i % 10 == 2 and len(c["xin"]) >= 4 and c["xmin"] is not None and c["xmax"] is not None and not c["omitted"] and not (i % 6 == 5):
             # a dead bin: one abscissa is NaN; it is in no closed interval, so an explicit window deletes it
             c["xin"] = list(c["xin"])
@@ -110,7 +116,7 @@ def oracle(pystog, case, res):
     if [list(w) for w in want] != res["crop"]:
         return "apply_cropping differs from the closed-interval filter"
     if case["xmin"] is None and case["xmax"] is None:
-        if res["crop"][0] != x:
+        if res["crop"][0] != [v for v in x if v == v]:      # (a NaN abscissa is in no interval, not even the full range)
             return "no window but points were dropped"
     ref = np.array(res["yout"]), np.array(res["eout"])
     if len(want[0]) >= 1:
